@@ -394,6 +394,21 @@ func init() {
 				}
 			}
 		}
+		c.Phase("asm-every-two-byte-push") // all 65,536 two-byte pushes inside a non-data script: whatever their hex text happens to spell (a number, an opcode name without its prefix, ...) it reads back as those two bytes
+		for v := 0; v < 65536; v++ {
+			if !c.Case(uint64(v)) {
+				continue
+			}
+			push := []byte{0x02, byte(v >> 8), byte(v)}
+			switch v % 3 {
+			case 0:
+				script(c, &c13Script{Script: append(append([]byte{0x76}, push...), 0x75), Class: "asm-two-byte-push"})
+			case 1:
+				script(c, &c13Script{Script: push, Class: "asm-two-byte-push"})
+			default:
+				script(c, &c13Script{Script: append(append([]byte{}, push...), 0x87), Class: "asm-two-byte-push"})
+			}
+		}
 		c.Phase("asm-lookalike-pushes") // multi-byte pushes whose hex text could be read as something else: decimal numbers, zero runs, base-prefixed or floating-point literals
 		n = 0
 		{
